@@ -26,6 +26,8 @@ type inputs struct {
 	mapfile  string
 	outgroup []string
 	nexus    string // `multi` in Nexus format with a TRANSLATE block
+	chainmap string // a rename map that permutes the tip names (every new name is also an old name)
+	numeric  string // several trees whose tip names are the numbers 0..n-1, in shuffled order
 }
 
 func toNewick(n *core.N) string {
@@ -209,6 +211,21 @@ func genInputs(c *core.Ctx, rep int) *inputs {
 		fmt.Fprintf(&mf, "%s\tnew_%s\n", t, t)
 	}
 	in.mapfile = mf.String()
+	// chained renames: a cyclic shift of the tip names plus a few 2-cycles' worth of chains a->b, b->c
+	var cm strings.Builder
+	shift := 1 + g.Intn(3)
+	for i, t := range in.tips {
+		fmt.Fprintf(&cm, "%s\t%s\n", t, in.tips[(i+shift)%len(in.tips)])
+	}
+	in.chainmap = cm.String()
+	onum := om
+	onum.TipPrefix = ""
+	var nb2 strings.Builder
+	for i := 0; i < 4; i++ {
+		m, _ := g.Tree(onum)
+		nb2.WriteString(toNewick(m) + "\n")
+	}
+	in.numeric = nb2.String()
 	in.outgroup = []string{in.tips[0], in.tips[1]}
 	in.nexus = toNexus(in.multi)
 	return in
@@ -240,6 +257,9 @@ func cliTemplates(c *core.Ctx, in *inputs) []*request {
 	add("rename-auto", false, M, "rename", "-i", "@in:tree@", "-a", "-l", "6", "-m", "@out:map@", "-o", "@out:tree@")
 	add("rename-auto-internal", false, map[string]string{"tree": in.named}, "rename", "-i", "@in:tree@", "-a", "--internal", "-m", "@out:map@")
 	add("rename-map", false, map[string]string{"tree": in.tree, "map": in.mapfile}, "rename", "-i", "@in:tree@", "-m", "@in:map@")
+	add("rename-map-chained", false, map[string]string{"tree": in.tree, "map": in.chainmap}, "rename", "-i", "@in:tree@", "-m", "@in:map@")
+	add("rename-map-chained-multi", false, map[string]string{"tree": in.multi, "map": in.chainmap}, "rename", "-i", "@in:tree@", "-m", "@in:map@", "-r")
+	add("reformat-nexus-translate-numeric", false, map[string]string{"tree": in.numeric}, "reformat", "nexus", "-i", "@in:tree@", "--translate")
 	add("rename-map-revert", false, map[string]string{"tree": in.tree, "map": in.mapfile}, "rename", "-i", "@in:tree@", "-m", "@in:map@", "-r")
 	add("rename-regexp", false, T, "rename", "-i", "@in:tree@", "-e", "t(\\d+)", "-b", "leaf$1", "-m", "@out:map@")
 	add("rename-quotes", false, T, "rename", "-i", "@in:tree@", "--add-quotes", "-m", "@out:map@")
